@@ -85,6 +85,49 @@ def operator_tables(rep, rng):
                           {'src': src, 'impl': a, 'expected': want})
 
 
+NAMED_ARGS = ['null', 'true', '0', '1', '-1', '2.5', '3', '"a"', '"ab"', '"b"', '[]', '[1, 2]', '[2, 1]', '["a", "b"]', '{}', '{a: 1}', '{b: 2, a: 1}',
+              'function(x) x', 'function(x, y) [x, y]', 'function(a, b) a', '"%s"', '" "', '[[1], [2]]', '[3, 1, 2]']
+
+
+def named_calls(rep, rng):
+    """A call by parameter names (in any order) binds like the positional call (spec: function application).
+    Parameter names of the library functions: tools/std_param_names.json (as published by the pinned commit)."""
+    import json
+    import os
+    try:
+        names = json.load(open(os.path.join(vlib.VERIF, 'tools', 'std_param_names.json')))
+    except Exception as e:  # noqa
+        rep.broken_tie('tools/std_param_names.json cannot be read', repr(e))
+        return
+    jobs = []
+    for f, ps in sorted(names.items()):
+        if not ps or f in ('extVar', 'native', 'trace'):
+            continue
+        for _ in range(2 if rep.tier == 'quick' else 12):
+            args = [rng.choice(NAMED_ARGS) for _ in ps]
+            pos = 'std.%s(%s)' % (f, ', '.join(args))
+            order = list(range(len(ps)))
+            rng.shuffle(order)
+            named = 'std.%s(%s)' % (f, ', '.join('%s=%s' % (ps[i], args[i]) for i in order))
+            k = rng.randrange(len(ps) + 1)
+            mixed = 'std.%s(%s)' % (f, ', '.join(args[:k] + ['%s=%s' % (ps[i], args[i]) for i in sorted(range(k, len(ps)), key=lambda _: rng.random())]))
+            jobs.append((f, pos, named, mixed))
+    wrap = 'local r = (%s); if std.isFunction(r) then "function" else r'
+    lines = []
+    for f, pos, named, mixed in jobs:
+        lines += [vlib.eval_line(wrap % pos, max_stack=500), vlib.eval_line(wrap % named, max_stack=500), vlib.eval_line(wrap % mixed, max_stack=500)]
+    outs = [C.canon_impl(a) for a in vlib.impl(lines)]
+    for i, (f, pos, named, mixed) in enumerate(jobs):
+        a, b, c = outs[3 * i], outs[3 * i + 1], outs[3 * i + 2]
+        rep.bump('named-call')
+        rep.count('c02named:' + named, a.startswith('ok'))
+        for form, o in ((named, b), (mixed, c)):
+            if C.norm(a) != C.norm(o):
+                rep.violation('c02named:' + form, 'call by parameter names differs from the positional call: %s gives %s, %s gives %s'
+                              % (pos[:70], a[:60], form[:70], o[:60]), {'src': pos, 'src2': form, 'impl': a, 'impl2': o})
+                break
+
+
 def run(rep):
     rep.rule = ("closed core programs generated as syntax trees (type-directed, mostly well-typed, with a share of "
                 "type errors, explicit errors, asserts, std.trace), printed with minimal and with redundant "
@@ -143,6 +186,7 @@ def run(rep):
                              {'src': s, 'sexp': G.to_sexp(p), 'impl': a, 'model': b})
     # operator tables against Python's arbitrary-precision integers / IEEE doubles
     operator_tables(rep, rng)
+    named_calls(rep, rng)
     # specification equations checked directly on the implementation
     pairs = []
     for p in progs[: (400 if rep.tier == 'quick' else 8000)]:
